@@ -243,8 +243,10 @@ Definition armed (e : env) : bool := match e_fault e with Some _ => true | None 
 (* one I/O action; false = it failed (and had no effect) *)
 Definition is_delete (a : act) : bool := match a with ADelete _ => true | _ => false end.
 
-(* Deletions are exempt from fault injection: the WAL issues them in Go map
-   order, so which of several deletions a fault would hit is not deterministic. *)
+(* Deletions are exempt from the counted fault: the WAL issues them in Go map
+   order, so which of several deletions a count would hit is not deterministic.
+   Instead, while a fault is armed and the mode fx_del is set, every deletion
+   fails (the file stays, the count is not used up). *)
 Definition io (a : act) (e : env) : bool * env :=
   if is_delete a then
     if armed e && fx_del (e_fx e) then
